@@ -27,7 +27,7 @@ func init() {
 	register(&Check{
 		ID:    "C20",
 		Level: "model_checking",
-		Rule: "product per transaction type of per-field domains (strings: empty, valid, malformed, case variants, U+017F, invalid UTF-8, 10 kB; bytes: absent, empty, 31, zero32, nonzero32, 33, 10 kB; amounts: absent, -1, 0, 1, 2^256-1; integers: 0, 1, max), " +
+		Rule: "product per transaction type of per-field domains (strings: empty, valid, malformed, case variants, U+017F, invalid UTF-8, 10 kB; submitters also as well-formed 1-, 33- and 255-byte accounts; bytes: absent, empty, 31, zero32, nonzero32, 33, 10 kB; amounts: absent, -1, 0, 1, 2^256-1; integers: 0, 1, max), " +
 			"each message built as wire bytes and decoded by the generated Unmarshal, in 9 states (populated, both paused, default genesis, threshold near 2^32/65, malformed-but-accepted attester strings, negative stored burn limit, token pairs and limits naming an empty / an invalid denom, wrong-length messenger addresses with the nonce counter at 2^64-1 -- the last three only a genesis file can create); all 19 queries with nil request and nil/contradictory/extreme pagination; " +
 			"both message decoders and the verifier over all lengths 0..300; the CLI address parser over all strings of length <=3 over {0,x,1,z,O,U+017F}, a multi-byte character at every byte offset 0..24 of a base58 string, and long inputs; every call under recover(); " +
 			"distinct_nontrivial = distinct (entry point, field-shape vector) classes",
@@ -308,7 +308,9 @@ func c20Msg(r *Run, state, typ string) {
 	if holder == "" {
 		holder = UserA.Str
 	}
-	from := strDom(map[string]string{"1holder": holder, "2empty": "", "3malformed": "noble1notanaddress", "4outsider": Outsider.Str})
+	from := strDom(map[string]string{"1holder": holder, "2empty": "", "3malformed": "noble1notanaddress", "4outsider": Outsider.Str,
+		// well-formed account addresses of unusual length (bech32 accepts payloads of 1..255 bytes)
+		"8acct1B": sdk.AccAddress([]byte{7}).String(), "8acct33B": sdk.AccAddress(bytes.Repeat([]byte{0x33}, 33)).String(), "8acct255B": sdk.AccAddress(bytes.Repeat([]byte{0x55}, 255)).String()})
 	if thorough {
 		from = append(from, strDom(map[string]string{"5long": strings.Repeat("a", 10000), "6badutf8": "\xff\xfe\xfd", "7module": ModuleAcct.Str})...)
 	}
